@@ -45,6 +45,14 @@ type negoScn struct {
 	Alps12       bool   `json:"alps12"`
 	AlpsSettings []int  `json:"alps_settings"`
 	ClientAlps   string `json:"client_alps"` // "has": {"h2": "CLNT"}, "lacks": {"zz": "X"}, "empty": {}, "": nil
+	// client authentication: 0 none, 1 server requests a certificate and the client has none,
+	// 2 server requests one and the client presents it
+	ClientAuth int `json:"client_auth"`
+	// Resume: the scenario's connection is preceded by a compliant TLS 1.2 connection sharing the session cache
+	Resume bool `json:"resume"`
+	// NoReneg: use the parrot's spec as a custom spec with renegotiation support switched off (same wire image);
+	// ExportKeyingMaterial is unavailable on connections that allow renegotiation
+	NoReneg bool `json:"no_reneg"`
 	// client options
 	Omit      bool  `json:"omit"`
 	RemoveSNI bool  `json:"remove_sni"`
@@ -263,6 +271,27 @@ func runNego(s negoScn, rawScn json.RawMessage, pk *hlib.PKI, certs map[string]t
 		tls.VerifSetOverride(scfg, ov)
 	}
 	ccfg := &tls.Config{ServerName: s.SNI, RootCAs: pk.Pool, OmitEmptyPsk: s.Omit}
+	firstOK := false
+	if s.Resume {
+		// a prior, plainly compliant TLS 1.2 connection of the same client fills the shared session cache; the
+		// scenario's server holds the same ticket key, so it can resume that session
+		ccfg.ClientSessionCache = tls.NewLRUClientSessionCache(4)
+		var key [32]byte
+		copy(key[:], "verif-ticket-key-verif-ticket-key")
+		scfg.SetSessionTicketKeys([][32]byte{key})
+		first := &tls.Config{Certificates: scfg.Certificates, MinVersion: tls.VersionTLS12, MaxVersion: tls.VersionTLS12,
+			CipherSuites: scfg.CipherSuites, CurvePreferences: scfg.CurvePreferences, NextProtos: scfg.NextProtos}
+		first.SetSessionTicketKeys([][32]byte{key})
+		r1 := hlib.RunHandshake(ccfg.Clone(), first, id, hlib.HSOpts{Timeout: 5 * time.Second, Echo: []int{3}})
+		firstOK = r1.CErr == nil && r1.SErr == nil
+	}
+	if s.ClientAuth != 0 {
+		scfg.ClientAuth = tls.RequestClientCert
+		if s.ClientAuth == 2 {
+			scfg.ClientAuth = tls.RequireAnyClientCert
+			ccfg.Certificates = []tls.Certificate{certs["ecdsa"]}
+		}
+	}
 	switch s.ClientAlps {
 	case "has":
 		ccfg.ApplicationSettings = map[string][]byte{"h2": []byte("CLNT"), "http/1.1": []byte("CLN1")}
@@ -290,7 +319,11 @@ func runNego(s negoScn, rawScn json.RawMessage, pk *hlib.PKI, certs map[string]t
 		echo = []int{5}
 	}
 	nch := 0
-	r := hlib.RunHandshake(ccfg, scfg, id, hlib.HSOpts{Timeout: 5 * time.Second, Echo: echo, EKM: ekm, OnClientWrite: func(b []byte) {
+	runID := id
+	if s.NoReneg {
+		runID = tls.HelloCustom
+	}
+	r := hlib.RunHandshake(ccfg, scfg, runID, hlib.HSOpts{Timeout: 5 * time.Second, Echo: echo, EKM: ekm, OnClientWrite: func(b []byte) {
 		// a ClientHello is written as one plaintext handshake record
 		if len(b) > 9 && b[0] == 22 && b[5] == 1 && nch < 2 {
 			n := int(b[3])<<8 | int(b[4])
@@ -300,6 +333,18 @@ func runNego(s negoScn, rawScn json.RawMessage, pk *hlib.PKI, certs map[string]t
 			}
 		}
 	}, Prep: func(u *tls.UConn) error {
+		if s.NoReneg {
+			spec, err := tls.UTLSIdToSpec(id)
+			if err != nil {
+				return err
+			}
+			for _, e := range spec.Extensions {
+				if ri, ok := e.(*tls.RenegotiationInfoExtension); ok {
+					ri.Renegotiation = tls.RenegotiateNever
+				}
+			}
+			return u.ApplyPreset(&spec)
+		}
 		if s.RemoveSNI {
 			return u.RemoveSNIExtension()
 		}
@@ -315,6 +360,7 @@ func runNego(s negoScn, rawScn json.RawMessage, pk *hlib.PKI, certs map[string]t
 	} else {
 		res["hsraw"] = []int{}
 	}
+	res["first_ok"] = firstOK
 	res["peer_alps"] = hlib.Ints(r.CS.PeerApplicationSettings)
 	res["client_ee"] = hlib.Ints(ov.ClientEE)
 	ce, se := []any{}, []any{}
